@@ -352,4 +352,4 @@ def check(run):
     run.guarded('ATMKEY', rule_atmkey)
     run.guarded('CASE', rule_case)
     run.guarded('NOALIAS', rule_noalias)
-    run.guarded('PRED', lambda r: rule_pred(r, floor=10))
+    run.guarded('PRED', lambda r: rule_pred(r, floor=1, only=('mulgrid.block_mapping',)))
